@@ -1,6 +1,7 @@
 package main
 
 import (
+	"sort"
 	"fmt"
 	"go/token"
 	"strings"
@@ -94,6 +95,43 @@ func hasLoop(f *ssa.Function) bool {
 }
 
 func runC16(r *Report) {
+	// what Bridge.Close sets to nil under a lock is read elsewhere only under that lock: a reader
+	// that skips it can observe the nil (or a half-written interface) in the middle of its work
+	if bc := r.need("R-C16-3", "internal/protocol/session/tunnel", "Bridge.Close"); bc != nil {
+		ls := lockSetsOf(bc)
+		niled := map[string]string{}
+		Instrs(bc, func(in ssa.Instruction) {
+			st, ok := in.(*ssa.Store)
+			if !ok || !isNil(st.Val) {
+				return
+			}
+			t, fld, _, ok := FieldOf(st.Addr)
+			if !ok || t != "Bridge" {
+				return
+			}
+			for l, m := range ls.HeldAll(in) {
+				if m == "W" {
+					if i := strings.LastIndex(l, "."); i >= 0 {
+						l = l[i+1:]
+					}
+					niled[fld] = l
+				}
+			}
+		})
+		var flds []string
+		for f := range niled {
+			flds = append(flds, f)
+		}
+		sort.Strings(flds)
+		for _, f := range flds {
+			guardedBy(r, "R-C16-3", "internal/protocol/session/tunnel", "Bridge", f, niled[f], map[string]string{
+				"NewBridge": "constructor: the bridge is not shared yet",
+			})
+		}
+		if len(flds) < 4 {
+			r.Fail("R-C16-3", bc.Pos(), fmt.Sprintf("only %d fields set to nil under a lock by Bridge.Close found (6 confirmed by hand)", len(flds)), "Bridge.Close", "nil-on-close:floor")
+		}
+	}
 	// the close handler of the stream processor releases both endpoints whatever the other one says:
 	// no return of onClose is reachable without examining reader and writer (an early return on a
 	// failing writer Close would leave the reader open for ever: the close latch is already set)
